@@ -380,7 +380,7 @@ class Harness:
         for (toward, wire), rec in self.inj.items():
             if rec["state"] != "pending":
                 continue
-            if (_CLOCK.t - rec["last"]).total_seconds() < INTERVAL:
+            if (_CLOCK.t - rec["last"]).total_seconds() < getattr(self, "interval", INTERVAL):
                 continue
             rec["tries_left"] -= 1
             if rec["tries_left"] == 0:
@@ -497,6 +497,12 @@ class Harness:
             r = self.ev_inject(ev[1], ev[2])
         elif kind == "tick":
             r = self.ev_tick(ev[1])
+        elif kind == "cadence":
+            # the retransmission interval is configuration: whatever it is set to is the cadence
+            self.interval = float(ev[1])
+            self.c.resend_every = float(ev[1])
+            self.flags.add("cadence_set")
+            r = []
         else:
             raise ValueError(ev)
         if r is not None:
@@ -602,6 +608,8 @@ EV = st.one_of(
     st.tuples(st.just("inject"), st.sampled_from([V, S]), st.booleans()),
     st.tuples(st.just("inject"), st.sampled_from([V, S]), st.just(True)),
     st.tuples(st.just("tick"), st.sampled_from([3.1, 3.1, 1.0, 6.5, 3.0, 1.0, 0.5, 1.5])),
+    st.tuples(st.just("tick"), st.sampled_from([2.6, 2.5, 0.4, 86401.0, 86403.5, 3.1])),
+    st.tuples(st.just("cadence"), st.sampled_from([2.5, 0.4, 1.25, 3.0, 2.5])),
 )
 WALK = st.tuples(st.booleans(), st.lists(EV, min_size=3, max_size=200), st.integers(0, 2)).map(
     lambda t: (t[0], ([("zero_based",)] if t[2] == 0 else []) + list(t[1])))
@@ -628,9 +636,10 @@ def _walk_body(ctx, maxsteps):
 
 def _budget(ctx):
     """the retry budget of an injected reliable packet, tick by tick, for several tick sizes"""
-    for seconds in (3.1, 3.0, 5.0, 100.0):
+    for seconds, cadence in ((3.1, None), (3.0, None), (5.0, None), (100.0, None), (2.6, 2.5), (2.5, 2.5), (0.5, 0.4), (1.0, 2.5), (86401.0, None),
+                             (86402.0, 2.5)):
         for toward in (V, S):
-            evs = [("inject", toward, True)] + [("tick", seconds)] * 12 + [("send", toward, False, "all")]
+            evs = ([("cadence", cadence)] if cadence else []) + [("inject", toward, True)] + [("tick", seconds)] * 40 + [("send", toward, False, "all")]
             res, h = run_sequence(evs)
             ctx.bulk(1, 1, {"budget_runs": 1, "inj_timed_out": 1 if "inj_timed_out" in h.flags else 0})
             if res:
